@@ -7,6 +7,7 @@ func init() {
 		ID:    "C17",
 		Title: "Response writes the page or one error page, and leaks no detail unless debugging",
 		Rules: []string{
+			"R-PATHAPI: the template extension is only ever tested / removed as a suffix",
 			"R-OWN: every component use gets its own freshly parsed program (a shared one carries the slot bodies of another page into the error page)",
 			"R-PATHAPI (lookup): an unknown template name takes the miss edge of the program lookup to the template-not-found error, whose path is the absolute path computed from the name",
 			"R-FORMAT: every printf-like call (fmt family, and the module functions that hand a parameter on as a format: fail.New, newError, ...) gets a constant format, or the caller's own format parameter",
@@ -17,6 +18,7 @@ func init() {
 		NotDecided:  "TODO",
 		Assumptions: trustedBase,
 		Run: func(m *Model, s *Sink) {
+			m.RunPathAPI(s, "R-PATHAPI")                                 // the custom error page is looked up under its configured name: the extension is removed as a suffix, not as a set of characters
 			m.RunOwn(s, "R-OWN")                                         // the error page is rendered from its own program: no part of the failed page in it
 			m.RunTemplateLookup(s, "R-PATHAPI")                          // a template that does not exist is reported with the path of the file its name stands for
 			m.RunFormat(s, "R-FORMAT", m.reachableFns(m.Roots().Render)) // no text of a template, a path or an error is used as a printf format
